@@ -104,7 +104,15 @@ func LoadOverlay(dir string, goos string, initial map[string][]byte) (*Prog, err
 	var normLog []string
 	if os.Getenv("SCIONCHECK_NOINLINE") == "" && !hasErrors(pkgs) {
 		// first: pinned names for the variables of pinned functions
-		if changed, log := RenameBackOverlay(pkgs, overlay); len(changed) > 0 {
+		changed, log := RenameBackOverlay(pkgs, overlay)
+		if len(changed) == 0 {
+			for _, l := range log {
+				if strings.Contains(l, "dropped") {
+					normLog = append(normLog, l)
+				}
+			}
+		}
+		if len(changed) > 0 {
 			cfg2 := *cfg
 			next := map[string][]byte{}
 			for k, v := range overlay {
